@@ -12,7 +12,9 @@ def gens(tier):
 
 
 def check_c09(pid, tier, replay):
-    endpoint.run(pid, tier, replay, ("C09_",), [("endpoint/Credit", "endpoint/Credit.cfg")], gens(tier), RULE)
+    g = gens(tier) + [("endpoint/StreamGen", "endpoint/StreamGen%s.cfg" % ("_deep" if tier == "thorough" else ""))]
+    endpoint.run(pid, tier, replay, ("C09_",), [("endpoint/Credit", "endpoint/Credit.cfg")], g, RULE +
+                 "; plus streams to Auto(n) receivers disposing in batches of b (accept_all / single accepts / auto-accept) for every n, b of StreamGen.tla")
 
 
 def check_c10(pid, tier, replay):
